@@ -19,6 +19,28 @@ Theorem C10_str_offsets_strictly_increasing :
   forall l i j, i < j -> j <= length l -> str_off l i < str_off l j.
 Proof. exact str_off_mono. Qed.
 
+(* &Graphemes (and any other input whose cursors are byte offsets of variable-width tokens): for every width function
+   w >= 1 -- for Graphemes the byte length of each extended grapheme cluster -- a cursor that is the offset of token i
+   decodes to token i and moves to the offset of token i+1, offsets are strictly increasing, and a cursor strictly inside
+   a token is never decoded.  Which clusters a string consists of is unicode-segmentation's business; the correspondence
+   run checks chumsky's tokenizer against it (kinds `graphemes` / `gslice`). *)
+Theorem C10_byte_cursors_refine_the_index_machine_for_any_token_width :
+  forall (w : tok -> nat), (forall t, 1 <= w t) ->
+  forall l i, i <= length l ->
+    w_decode w l (w_off w l i) =
+      Some (match nth_error l i with Some t => Some (t, w_off w l (S i)) | None => None end).
+Proof. exact w_refines. Qed.
+
+Theorem C10_byte_offsets_strictly_increasing_for_any_token_width :
+  forall (w : tok -> nat), (forall t, 1 <= w t) ->
+  forall l i j, i < j -> j <= length l -> w_off w l i < w_off w l j.
+Proof. exact w_off_mono. Qed.
+
+Theorem C10_no_decoding_inside_a_token :
+  forall (w : tok -> nat), (forall t, 1 <= w t) ->
+  forall l i c, i < length l -> w_off w l i < c -> c < w_off w l (S i) -> w_decode w l c = None.
+Proof. exact w_decode_inside. Qed.
+
 (* Stream, for every batch size B > 0 (512 in the code): next at any previously returned cursor yields
    the token of the underlying sequence; cache ++ remaining iterator is invariant and the cache only
    grows, i.e. every item is pulled from the iterator at most once and in order however much the
@@ -54,3 +76,6 @@ Print Assumptions C10_str_offsets_strictly_increasing.
 Print Assumptions C10_stream_refines_and_pulls_once.
 Print Assumptions C10_stream_initial_state.
 Print Assumptions C10_mapped_span_first_to_last.
+Print Assumptions C10_byte_cursors_refine_the_index_machine_for_any_token_width.
+Print Assumptions C10_byte_offsets_strictly_increasing_for_any_token_width.
+Print Assumptions C10_no_decoding_inside_a_token.
